@@ -34,7 +34,7 @@ def apply_patch(dst, patch):
     r = subprocess.run(['git', 'apply', '--whitespace=nowarn', os.path.abspath(patch)], cwd=dst,
                        capture_output=True, text=True)
     if r.returncode != 0:
-        r = subprocess.run(['patch', '-p1', '-i', os.path.abspath(patch)], cwd=dst,
+        r = subprocess.run(['patch', '-p1', '--fuzz=3', '-i', os.path.abspath(patch)], cwd=dst,
                            capture_output=True, text=True)
     return r.returncode == 0, r.stderr + r.stdout
 
@@ -134,6 +134,10 @@ def index():
         with open(os.path.join(d, 'meta.json'), 'w') as f:
             json.dump(meta, f, indent=1, sort_keys=True)
             f.write('\n')
+        meta = dict(meta)
+        if meta.get('applies_to_current_tree') is False:
+            meta['summary'] = '[applies to base commit %s only: %s] ' % (
+                meta.get('base_commit'), meta.get('applies_note', '')) + meta.get('summary', '')
         rows.append((name, meta.get('property', name[:3]), meta.get('summary', ''),
                      meta.get('needs', ''), caught, harness))
     with open(os.path.join(root, 'INDEX.md'), 'w') as f:
